@@ -577,13 +577,17 @@ Record hcase := mkHCase {
   hc_obs : list obs;
   hc_final : list tree }.     (* the live trees at the end, as Base.Tree trees *)
 
-Fixpoint replay (caching strict : bool) (s : st) (F : forest) (ops : list op) (os : list obs)
+(* [stp] is the step function: Model.Heap.step here; Model/HeapOpsGen.v instantiates it with the
+   step whose link surgery is done by the programs extracted from node.go (step_src) - that is
+   the one the harness' cases are checked with - and proves the two replays equal. *)
+Fixpoint replay_with (stp : bool -> st -> op -> outcome (st * option addr))
+  (caching strict : bool) (s : st) (F : forest) (ops : list op) (os : list obs)
   : option (st * forest) :=
   match ops, os with
   | [], [] => Some (s, F)
   | o :: ops', ob :: os' =>
       if negb strict || pre_b caching s F o then
-        match step caching s o with
+        match stp caching s o with
         | Ok (s', ret) =>
             let F' := aeffect s F o in
             if N.eqb (N_of_oaddr ret) (o_ret ob)
@@ -592,7 +596,7 @@ Fixpoint replay (caching strict : bool) (s : st) (F : forest) (ops : list op) (o
                    rep_b s' F'
                    && list_eqb (opt_eqb atree_eqb) (map (abs s') (map root F')) (map Some F')
                    && match o_forest ob with Some G => list_eqb atree_eqb F' G | None => true end)
-            then replay caching strict s' F' ops' os'
+            then replay_with stp caching strict s' F' ops' os'
             else None
         | _ => None
         end
@@ -600,13 +604,16 @@ Fixpoint replay (caching strict : bool) (s : st) (F : forest) (ops : list op) (o
   | _, _ => None
   end.
 
-Definition check_hcase (c : hcase) : bool :=
-  match replay (hc_caching c) (hc_strict c) init [] (hc_ops c) (hc_obs c) with
+Definition replay := replay_with step.
+
+Definition check_hcase_with (stp : bool -> st -> op -> outcome (st * option addr)) (c : hcase) : bool :=
+  match replay_with stp (hc_caching c) (hc_strict c) init [] (hc_ops c) (hc_obs c) with
   | Some (s, F) =>
       negb (hc_strict c)
       || list_eqb (opt_eqb tree_eqb) (map (payload (heap s)) F) (map Some (hc_final c))
   | None => false
   end.
+Definition check_hcase : hcase -> bool := check_hcase_with step.
 
 (* A tree handed out by a reader: link-level dump of every node reachable from the root, and
    the Base.Tree tree the harness printed for it (labels in pre-order).  The model rebuilds the heap, reads the shape
@@ -633,5 +640,6 @@ Definition check_tcase (c : tcase) : bool :=
   end.
 
 Inductive c12case := HCase (c : hcase) | TCase (c : tcase).
-Definition check_case (c : c12case) : bool :=
-  match c with HCase c => check_hcase c | TCase c => check_tcase c end.
+Definition check_case_with (stp : bool -> st -> op -> outcome (st * option addr)) (c : c12case) : bool :=
+  match c with HCase c => check_hcase_with stp c | TCase c => check_tcase c end.
+Definition check_case : c12case -> bool := check_case_with step.
